@@ -58,6 +58,18 @@ Theorem C14_candidates_are_source :
 Proof. exact C14_candidates_stmt. Qed.
 Print Assumptions C14_candidates_are_source.
 
+(* options["force_poll_mesh"] = True (non-default): the same rows, every coordinate snapped to the SEARCH grid whose size is read from
+   optim_state["search_mesh_size"]:  s * round_half_even(x / s)  (force_to_grid; its body is translated on its own for C17grid). *)
+Theorem C14_forced_candidates_are_source :
+  forall (D : nat) (s : pstate) (draws : list (list Z)) (sd : list Z) (pm : list nat),
+    List.length (s_ps s) = D -> List.length (s_u s) = D -> List.length sd = D -> perm_ok D pm ->
+    Forall (fun p => ~ (p == 0)%Q) (s_ps s) -> s_force s = true ->
+    cand_pre src_gen src_cand D s (mk_oracle draws sd pm)
+    = snap_points (s_smesh_state s)
+        (poll_points (s_u s) (s_mesh_state s) (poll_dirs (poll_basis D (poll_n (s_smesh_state s) (s_mesh_state s)) draws sd pm))).
+Proof. exact candidates_forced_are_source. Qed.
+Print Assumptions C14_forced_candidates_are_source.
+
 (* a pin only: the refill block is guarded by the test that makes it run exactly once per poll step (the basis is never emptied) *)
 Theorem C14_refill_test_is_source : src_refill_test = "B is None or B.size == 0"%string.
 Proof. exact refill_test_is_source. Qed.
